@@ -9,19 +9,25 @@ stmt :=
   ("if", cond_text, then_body, else_body|None)
   ("for", var, from_text, to_text, body)
   ("block", body) | ("scope", name, body)
+  ("include", file_name, body)               .include 'file_name' (the file holds the rendered body; twin: body inline)
 """
 import re
 
 
-def render(stmts, ind=""):
+def render(stmts, ind="", files=None):
+    """Source text; files (dict) collects the contents of the files named by include statements."""
     out = []
     for st in stmts:
         k = st[0]
-        if k == "raw":
+        if k == "include":
+            if files is not None:
+                files[st[1]] = render(st[2], "", files) + "\n"
+            out.append(f"{ind}.include '{st[1]}'")
+        elif k == "raw":
             out += [ind + ln for ln in st[1].split("\n")]
         elif k == "macrodef":
             out.append(f"{ind}.macro {st[1]}({', '.join(st[2])}) {{")
-            out.append(render(st[3], ind + "  "))
+            out.append(render(st[3], ind + "  ", files))
             out.append(f"{ind}}}")
         elif k == "call":
             args = []
@@ -29,28 +35,28 @@ def render(stmts, ind=""):
                 if a[0] == "expr":
                     args.append(a[1])
                 else:
-                    args.append("{\n" + render(a[1], ind + "    ") + f"\n{ind}  }}")
+                    args.append("{\n" + render(a[1], ind + "    ", files) + f"\n{ind}  }}")
             out.append(f"{ind}{st[1]}({', '.join(args)})")
         elif k == "splice":
             out.append(f"{ind}{{{{{st[1]}}}}}")
         elif k == "if":
             out.append(f"{ind}.if {st[1]} {{")
-            out.append(render(st[2], ind + "  "))
+            out.append(render(st[2], ind + "  ", files))
             if st[3] is not None:
                 out.append(f"{ind}}} else {{")
-                out.append(render(st[3], ind + "  "))
+                out.append(render(st[3], ind + "  ", files))
             out.append(f"{ind}}}")
         elif k == "for":
             out.append(f"{ind}.for {st[1]} := {st[2]}, {st[3]} {{")
-            out.append(render(st[4], ind + "  "))
+            out.append(render(st[4], ind + "  ", files))
             out.append(f"{ind}}}")
         elif k == "block":
             out.append(f"{ind}{{")
-            out.append(render(st[1], ind + "  "))
+            out.append(render(st[1], ind + "  ", files))
             out.append(f"{ind}}}")
         elif k == "scope":
             out.append(f"{ind}.scope {st[1]} {{")
-            out.append(render(st[2], ind + "  "))
+            out.append(render(st[2], ind + "  ", files))
             out.append(f"{ind}}}")
         else:
             raise ValueError(st)
@@ -63,7 +69,7 @@ class Undecidable(Exception):
 
 def _const_eval(text, consts):
     """Value of an expression closed over known compile-time constants (ints), else Undecidable."""
-    names = set(re.findall(r"[A-Za-z_][A-Za-z_0-9.]*", text))
+    names = set(re.findall(r"(?<![0-9A-Za-z_])[A-Za-z_][A-Za-z_0-9.]*", text))
     env = {}
     for n in names:
         if n not in consts:
@@ -80,12 +86,19 @@ class Expander:
     decide_if(cond_text, consts) -> bool and loop_bounds(from_text, to_text, consts) -> (a, b) are
     supplied by the harness for conditions / bounds that depend on symbolic holes."""
 
-    def __init__(self, decide_if=None, loop_bounds=None, max_depth=12):
+    def __init__(self, decide_if=None, loop_bounds=None, max_depth=12, early=()):
+        # names whose value is known while the program is expanded (symbols injected by the harness,
+        # and top-level `:=` definitions made from such names before their use; `=` definitions are resolved late): a macro argument built
+        # only from them is bound eagerly (`:=`), as the assembler binds it
+        self.early = set(early)
         self.macros = {}
         self.n = 0
         self.decide_if = decide_if
         self.loop_bounds = loop_bounds
         self.max_depth = max_depth
+
+    def _all_early(self, text, consts):
+        return all(n in self.early or n in consts for n in re.findall(r"(?<![0-9A-Za-z_])[A-Za-z_][A-Za-z_0-9.]*", text))
 
     def fresh(self):
         self.n += 1
@@ -109,6 +122,9 @@ class Expander:
             k = st[0]
             if k == "raw":
                 out.append(st)
+                m = re.fullmatch(r"\s*([A-Za-z_][A-Za-z_0-9]*)\s*:=\s*(.+)", st[1])
+                if m and depth == 0 and self.early and self._all_early(m.group(2), consts):
+                    self.early.add(m.group(1))
                 m = re.fullmatch(r"\s*([A-Za-z_][A-Za-z_0-9]*)\s*:=\s*(.+)", st[1])
                 if m:
                     try:
@@ -139,8 +155,12 @@ class Expander:
                         except Undecidable:
                             inner_consts.pop(p, None)
                             t = self.fresh()
-                            pre.append(("raw", f"{t} = {a[1]}"))
-                            binds.append(("raw", f"{p} = {t}"))
+                            if self.early and self._all_early(a[1], consts):
+                                pre.append(("raw", f"{t} := {a[1]}"))
+                                binds.append(("raw", f"{p} := {t}"))
+                            else:
+                                pre.append(("raw", f"{t} = {a[1]}"))
+                                binds.append(("raw", f"{p} = {t}"))
                         inner_code.pop(p, None)
                         inner_exprs[p] = "(" + self._subst(a[1], exprs) + ")"
                     else:
@@ -178,6 +198,9 @@ class Expander:
                 out.append(("block", self.expand(st[1], consts, code, depth + 1, exprs)))
             elif k == "scope":
                 out.append(("scope", st[1], self.expand(st[2], consts, code, depth + 1, exprs)))
+            elif k == "include":
+                # the included text stands where the directive stands (macro definitions it makes stay known)
+                out += self.expand(st[2], consts, code, depth + 1, exprs)
             else:
                 raise ValueError(st)
         return out
